@@ -78,7 +78,7 @@ func poisonCells(n int) []int {
 }
 
 // randomSeq builds one history; cur simulates the receiver as a plain set so that arguments can
-// be chosen relative to it (elements already present, Complement only where len(s) <= n).
+// be chosen relative to it (elements already present).
 func randomSeq(r *hx.Rng) string {
 	u := newUniverse(r)
 	el := u.set(r, 10)
@@ -163,11 +163,18 @@ func randomSeq(r *hx.Rng) string {
 				cur[v] = true
 			}
 		case k == 11:
-			// Complement(n, s) panics in make when len(s) > n although the result is well defined
-			// (GENUINE DEFECT in notes/C17.md): exactly those inputs are skipped.
+			// Complement(n, s) for every n: around len(s) (the capacity n-len(s) was negative
+			// and panicked before 0a753bf), 0, negative, and larger than every element
 			n := len(cur) + r.Intn(12)
-			if r.Chance(1, 3) {
+			switch r.Intn(6) {
+			case 0:
 				n = len(cur)
+			case 1:
+				n = r.Intn(len(cur) + 1) // len(s) >= n
+			case 2:
+				n = r.Range(-3, 2)
+			case 3:
+				n = r.Range(0, 45)
 			}
 			ops = append(ops, "C:"+strconv.Itoa(n))
 		case k == 12:
@@ -196,7 +203,9 @@ func subset(mask int, base []int) []int {
 
 func gen(g *hx.Gen) {
 	r := g.Rng
-	// ---- corpus: the two inputs that failed on the pinned tree (fixed by fffffa6 and 0b58617)
+	// ---- corpus: the inputs that failed on the pinned tree (fixed by fffffa6, 0b58617 and 0a753bf)
+	g.Emit("seq 5,6,7+;C:2") // panicked (negative capacity) until 0a753bf
+	g.Emit("seq -4,-1,0,2,9+990001;C:3 C:0 C:-2 C:1 C:12")
 	g.Emit("seq -2,3,4+;a:-2,-2,5,4")
 	g.Emit("seq -2,3,4+990001,990002;a:-2,-2,5,4 a:4,4,4 a:3,-2,3")
 	g.Emit("range 5 0 -1;")
@@ -267,17 +276,17 @@ func gen(g *hx.Gen) {
 	cb := []int{-1, 0, 1, 2, 3, 4}
 	for ma := 0; ma < 64; ma++ {
 		a := subset(ma, cb)
-		for n := len(a); n <= 6; n++ { // len(a) > n skipped: see GENUINE DEFECT in notes/C17.md
+		for n := -2; n <= 7; n++ { // includes len(a) > n, n = 0 and n < 0
 			g.Emit(seqCase(a, nil, []string{"C:" + strconv.Itoa(n)}))
 		}
 		for x := -2; x <= 5; x++ {
 			g.Emit(seqCase(a, poisonCells(1), []string{"s:" + strconv.Itoa(x), "r:" + strconv.Itoa(x), "r:" + strconv.Itoa(x)}))
 		}
 	}
-	g.Exhaustive("Complement(n, a) for all a inside {-1..4} and len(a) <= n <= 6; ContainsSingle and Remove for all such a and x in -2..5")
+	g.Exhaustive("Complement(n, a) for all a inside {-1..4} and all n in -2..7; ContainsSingle and Remove for all such a and x in -2..5")
 
 	// ---- random histories
-	for i := 0; i < g.Pick(6000, 150000); i++ {
+	for i := 0; i < g.Pick(12000, 150000); i++ {
 		g.Emit(randomSeq(r))
 	}
 
